@@ -310,3 +310,57 @@ def BoundInRepeated(rng):
 SEM_FAMILIES = [('if_chain', IfChain), ('repeated_call', RepeatedCall),
                 ('double_negation', DoubleNegation),
                 ('bound_in_repeated', BoundInRepeated)]
+
+
+# ---- C18: ordered / limited predicates in less common places ---------------------
+
+def OrderedAggregate(rng, form=None, k=None):
+  """Top-K over an aggregation with several bodies, the order and the limit
+  written as denotations (on the first rule / on a rule with `|`) or as
+  annotations; read by another rule."""
+  form = form or rng.choice(['two_rules_denotation', 'disjunction_denotation',
+                             'two_rules_annotation'])
+  k = rng.randint(0, 4) if k is None else k
+  names = ['x', 'y', 'z', 'w']
+  def Rows():
+    return [(rng.choice(names), rng.randint(1, 9)) for _ in range(rng.randint(2, 4))]
+  A, B = Facts('A', Rows()), Facts('B', Rows())
+  n, v, t = Var('n'), Var('v'), Var('t')
+  head = [('name', n, ''), ('total', v, 'Sum')]
+  if form == 'disjunction_denotation':
+    rules = [Rule(head, [Or([[Atom('A', [('col0', n), ('col1', v)])],
+                             [Atom('B', [('col0', n), ('col1', v)])]])], True)]
+  else:
+    rules = [Rule(head, [Atom('A', [('col0', n), ('col1', v)])], True),
+             Rule(head, [Atom('B', [('col0', n), ('col1', v)])], True)]
+  Top = Pred('Top', rules, order=[('total', True), ('name', False)], limit=k)
+  if form.endswith('denotation'):
+    Top['order_as_denotation'] = True
+    Top['limit_as_denotation'] = True
+  Read = Pred('ReadTop', [Rule([('col0', n, ''), ('col1', t, '')],
+                               [Atom('Top', [('name', n), ('total', t)])])])
+  return Prog([A, B, Top, Read]), ['Top', 'ReadTop'], ['Top'], [
+      'fam_ordered_aggregate', 'fam_' + form]
+
+
+def FunctorOrdered(rng):
+  """An ordered + limited predicate cloned by a functor: the clone keeps the
+  order and the limit, and a rule reading the clone sees only those rows."""
+  x = Var('x')
+  Src, Other = _Unary('Src', rng, 0, 6), _Unary('Other', rng, 0, 6)
+  Top = Pred('Top', [Rule([('col0', x, '')], [Atom('Src', [('col0', x)])])],
+             order=[('col0', True)], limit=rng.randint(0, 2))
+  Read = Pred('ReadTopOther', [Rule([('col0', x, '')],
+                                    [Atom('TopOther', [('col0', x)])])])
+  prog = Prog([Src, Other, Top, Read])
+  prog['makes'] = [{'name': 'TopOther', 'functor': 'Top',
+                    'args': [{'k': 'Src', 'v': 'Other'}]}]
+  return prog, ['Top', 'TopOther', 'ReadTopOther'], ['Top', 'TopOther'], [
+      'fam_functor_ordered']
+
+
+C18_FAMILIES = [
+    ('ordered_aggregate_two_rules', lambda r: OrderedAggregate(r, 'two_rules_denotation')),
+    ('ordered_aggregate_disjunction', lambda r: OrderedAggregate(r, 'disjunction_denotation')),
+    ('ordered_aggregate_annotation', lambda r: OrderedAggregate(r, 'two_rules_annotation')),
+    ('functor_ordered', FunctorOrdered)]
